@@ -80,11 +80,9 @@ func wildcardMatch(pat []byte, str []byte) bool {
 		if len(pat) == 0 {
 			return len(str) == 0
 		}
-		if len(str) == 0 {
-			return false
-		}
 
 		if pat[0] == '*' {
+			// A trailing '*' also matches the empty string.
 			if len(pat) == 1 {
 				return true
 			}
@@ -94,6 +92,10 @@ func wildcardMatch(pat []byte, str []byte) bool {
 					return true
 				}
 			}
+			return false
+		}
+
+		if len(str) == 0 {
 			return false
 		}
 
